@@ -166,6 +166,8 @@ def run_tlc(module, cfg_path, scratch: Scratch, *, workers=None, dump=False, env
         if line.startswith("Invariant ") or "propert" in line or line.startswith("The behavior up to"):
             continue
         r.errors.append(line)
+    if "Exception in thread" in out:
+        r.errors.append("TLC worker thread died: " + out[out.index("Exception in thread"):][:300])
     if not ms and not simulate and not r.errors:
         r.errors.append("no statistics line in TLC output")
     shutil.rmtree(meta, ignore_errors=True)
